@@ -119,7 +119,9 @@ pub fn sponge_like(pre: &RoSponge) -> RoSponge {
 
 pub fn keys<S: Sch>(cfg: &Cfg) -> Result<(CkOf<S>, VkOf<S>, StdRng, PpOf<S>), Verdict> {
     let mut rng = StdRng::seed_from_u64(cfg.seed.wrapping_mul(0x9E37_79B9).wrapping_add(7));
-    let pp = S::setup(&cfg.sz, &mut rng).map_err(|e| Verdict::viol("setup-err", e))?;
+    // the SRS has its own RNG: a confirmation replay re-draws the trapdoor and nothing else
+    let mut srs_rng = StdRng::seed_from_u64(cfg.seed.wrapping_mul(0x51_7cc1).wrapping_add(13) ^ crate::engine::explore::replay_salt());
+    let pp = S::setup(&cfg.sz, &mut srs_rng).map_err(|e| Verdict::viol("setup-err", e))?;
     let enforced: Option<Vec<usize>> = match &cfg.enforced {
         Some(e) => Some(e.clone()),
         None => {
